@@ -208,6 +208,14 @@ def run_b(case):
             want.insert(pos, "store:" + ("ok" if s_last == "sr" else "exc"))
         if order != want:
             viol.append(("callback-order", f"after {pre} + {eager}(): executions {order}, expected {want}"))
+        # "after an eager response": nothing of that runs before the broker call of the response has returned
+        ret_at = next((k for k, r in enumerate(res.log) if r[1] == "ret" and r[3] == "m0"
+                       and r[2] in ("ack", "nack", "reject", "requeue")), None)
+        first_cb = next((k for k, r in enumerate(res.log) if (r[1] == "actor" and r[2] == "callback")
+                         or (r[1] == "bucket" and r[2] == "store_bucket")), None)
+        if first_cb is not None and (ret_at is None or first_cb < ret_at):
+            viol.append(("callback-before-response", f"after {pre} + {eager}(): a callback / the result store ran before the "
+                                                     f"response had reached the broker"))
         kind_ = {"ack": "ack", "nack": "nack", "reject": "reject"}.get(eager, "requeue")
         cnt = 0 if eager == "reschedule" else (tried + 1 if eager in ("retry", "force_retry") else None)
         first = calls[:1]
